@@ -455,9 +455,20 @@ pub const LADDERS: [&str; 16] = [
     "types-array", "patterns", "match-in-match", "field-chain", "generic-inst",
 ];
 
+/// paths of d segments in every position a path can stand (the parser looks ahead over paths with a
+/// bounded budget): every length, not only powers of two
+pub const PATH_LADDERS: [&str; 6] = ["path-in-impl-header", "path-in-impl-for", "path-in-type", "path-in-expr", "path-in-pattern", "path-in-trait-bound"];
+
 pub fn ladder_text(kind: &str, d: usize) -> Option<String> {
     let rep = |s: &str, n: usize| s.repeat(n);
+    let path = |n: usize| vec!["A"; n.max(1)].join("::");
     Some(match kind {
+        "path-in-impl-header" => format!("impl {} {{ }}\nfn main() {{ () }}", path(d)),
+        "path-in-impl-for" => format!("struct T {{ a: int32 }}\nimpl {} for T {{ }}\nfn main() {{ () }}", path(d)),
+        "path-in-type" => format!("fn f(x: {}) -> unit {{ () }}\nfn main() {{ () }}", path(d)),
+        "path-in-expr" => format!("fn main() {{ let x = {}::f(1); () }}", path(d)),
+        "path-in-pattern" => format!("fn main() {{ match 1 {{ {}(k) => (), _ => () }} }}", path(d)),
+        "path-in-trait-bound" => format!("fn f[T: {}](x: T) -> unit {{ () }}\nfn main() {{ () }}", path(d)),
         "parens" => format!("fn main() {{ let x = {}1{}; string_println(int32_to_string(x)) }}", rep("(", d), rep(")", d)),
         "unary-neg" => format!("fn main() {{ let x = {}1; string_println(int32_to_string(x)) }}", rep("-", d)),
         "unary-not" => format!("fn main() {{ let x = {}true; string_println(bool_to_string(x)) }}", rep("!", d)),
@@ -594,7 +605,7 @@ impl Family for Ladders {
         &["C04"]
     }
     fn rule(&self) -> &'static str {
-        "nesting ladders: 16 nesting constructs x depths 1,2,4,…,64 (thorough: 128), and 12 constructs that are long rather than deep (else-if chain, let / statement sequences, functions, match arms, variants, struct fields, arguments, string concatenation, && chain, method chain, closures) x lengths 1,2,4,…,512 (thorough: 2048), each compiled in a worker process on a thread with the stack the goml binary gives its compiler thread (1 GiB; the binary itself is run on the same ladders by the `cli` family); a stack overflow kills the worker and is attributed to the case; distinct = distinct (construct, depth)"
+        "nesting ladders: 16 nesting constructs x depths 1,2,4,…,64 (thorough: 128), and 12 constructs that are long rather than deep (else-if chain, let / statement sequences, functions, match arms, variants, struct fields, arguments, string concatenation, && chain, method chain, closures) x lengths 1,2,4,…,512 (thorough: 2048), and paths of every length 1..160 (thorough: 300) in 6 positions (impl header, impl-for trait, type, expression, pattern, trait bound), each compiled in a worker process on a thread with the stack the goml binary gives its compiler thread (1 GiB; the binary itself is run on the same ladders by the `cli` family); a stack overflow kills the worker and is attributed to the case; distinct = distinct (construct, depth)"
     }
     fn cases(&self, tier: Tier) -> Box<dyn Iterator<Item = Value> + '_> {
         let mut v = Vec::new();
@@ -604,6 +615,11 @@ impl Family for Ladders {
             while d <= maxd {
                 v.push(json!({"ladder": k, "depth": d}));
                 d *= 2;
+            }
+        }
+        for k in PATH_LADDERS {
+            for d in 1..=(if tier == Tier::Quick { 160 } else { 300 }) {
+                v.push(json!({"ladder": k, "depth": d}));
             }
         }
         let maxb = if tier == Tier::Quick { 512 } else { 2048 };
